@@ -233,6 +233,9 @@ _dispatch_time_nanoseconds_since_epoch(dispatch_time_t when)
 		return value;
 	}
 
-	// Up time or monotonic time.
-	return _dispatch_get_nanoseconds() + _dispatch_timeout(when);
+	// Up time or monotonic time. Compute the remaining time before reading
+	// the wall clock: a preemption between the two clock readings must make
+	// the absolute deadline later, never earlier.
+	uint64_t remaining = _dispatch_timeout(when);
+	return _dispatch_get_nanoseconds() + remaining;
 }
